@@ -27,16 +27,27 @@ def run(ctx):
         "cranelift JITModule::free_memory releases the code and nothing else does (not verified); that freed JIT "
         "memory is really unmapped / never reused is runtime behaviour outside the model — only sampled by "
         "valgrind memcheck in the thorough tier",
+        "rustc's closure capture rules (edition >= 2021: a `move` closure that uses `self` as a whole owns all of "
+        "it, one that only names fields owns only those and the rest of `self` is dropped at the end of the function) "
+        "— the translator applies them to the tokens of `into_func` inside `macro_rules! call_impl`",
+        "the translator's reading of the code generator: every address baked into the code is an `iconst` whose "
+        "value expression shows a pointer cast, every data object goes through declare/define_data; the holder of "
+        "the pointee is found through locals and ModuleBuilder fields up to `finalize`",
         "the value a script's main() computes is the language-level result (C01's business); C11 only asks that "
         "it does not change over the handle's life",
     ]
     return ctx.finish(
         level="proof",
-        rule="histories on the real API: every history = [build runtime, register constant, register closure] ++ "
-             "suffix (≤ 7 ops quick / ≤ 8 thorough, one representative per set of identical handle clones) ending in "
-             "a drop, plus random histories (≤ 2 runtimes, ≤ 6 compilations, drops on another thread 1/3); after every "
-             "step every live handle is called and every tracked resource counted; a class is distinct by (drop kind, "
-             "set of resource kinds it released, number of runtimes/packages/handles still alive)",
+        rule="histories on the real API: first the class representatives (last owner of a module = handle / clone / "
+             "closure made by into_func × order of dropping package, runtime, other handles × drop on another thread × "
+             "plain and context runtime), then every history = [build runtime, register constant, register closure] ++ "
+             "suffix (≤ 7 ops quick / ≤ 8 thorough, one representative per set of identical handle clones / closures, "
+             "ops: compile, get, clone, into_func, drop) ending in a drop, plus random histories (≤ 2 runtimes, ≤ 6 "
+             "compilations, drops on another thread 1/3); scripts read tracked script constants, the registered constant, "
+             "the registered closure and (flag ud) string literals, f-string pieces, list literals, IP literals and "
+             "String / List script constants through checksums; after every step the heap is scribbled over, every "
+             "tracked resource counted and every live handle / closure called; a class is distinct by (drop kind, set "
+             "of resource kinds it released, number of runtimes/packages/handles still alive)",
         search=search,
     )
 
